@@ -115,7 +115,21 @@ func renderGenbank(origin string, feats []gbFeat) []byte {
 		fmt.Fprintf(&b, "                     /codon_start=%d\n", f.start)
 		fmt.Fprintf(&b, "                     /product=\"test protein %d\"\n", i)
 		w := []int{0, 3, 5, 58}[(i+len(f.trans))%4]
-		if w == 0 || len(f.trans) <= w {
+		lone := false
+		if i%2 == 0 && len(f.trans) > 0 && len(f.trans)%3 == 0 {
+			// a value that fills its last line exactly: the closing quote stands alone on the next line
+			w, lone = 3, true
+		}
+		if lone {
+			for k := 0; k < len(f.trans); k += w {
+				pre := ""
+				if k == 0 {
+					pre = "/translation=\""
+				}
+				fmt.Fprintf(&b, "                     %s%s\n", pre, f.trans[k:k+w])
+			}
+			b.WriteString("                     \"\n")
+		} else if w == 0 || len(f.trans) <= w {
 			fmt.Fprintf(&b, "                     /translation=\"%s\"\n", f.trans)
 		} else {
 			for k := 0; k < len(f.trans); k += w {
@@ -172,6 +186,7 @@ type pipeSpec struct {
 var pipeSpecs = map[string]pipeSpec{
 	"toma":        {"sam.blockToFastaRecord", "fastaio.WriteAlignment", 0},
 	"tomawrap":    {"sam.blockToFastaRecord", "fastaio.WriteAlignment", 0},
+	"tomapad":     {"sam.blockToFastaRecord", "fastaio.WriteAlignment", 0},
 	"samvar":      {"sam.getVariantsSam", "variants.WriteVariants", 1},
 	"variants":    {"variants.getVariants", "variants.WriteVariants", 1},
 	"variantsref": {"variants.getVariants", "variants.WriteVariants", 1},
@@ -181,6 +196,7 @@ var pipeSpecs = map[string]pipeSpec{
 	"closest":       {"closest.findClosest", "closest.Closest", 1},
 	"closestn":      {"closest.findClosestN", "closest.ClosestN", 1},
 	"closestntable": {"closest.findClosestN", "closest.ClosestN", 1},
+	"closestd":      {"closest.findClosestN", "closest.ClosestN", 1},
 	"toprank":       {"updown.findUpDownCatchment", "updown.TopRanking", 1},
 	"topranktable":  {"updown.findUpDownCatchment", "updown.TopRanking", 1},
 	"udlist":        {"updown.getLines", "updown.writeOutput", 1},
@@ -214,6 +230,9 @@ func pipeCall(cmd string, n, threads, badAt int, w *failWriter) (error, bool) {
 			return sam.ToMultiAlign(bytes.NewReader(samData), w, -1, -1, -1, false, threads)
 		case "tomawrap":
 			return sam.ToMultiAlign(bytes.NewReader(samData), w, 10, -1, -1, false, threads)
+		case "tomapad":
+			// --pad with a window: the flanks are filled per record
+			return sam.ToMultiAlign(bytes.NewReader(samData), w, -1, 5, len(pipeRef)-4, true, threads)
 		case "samvar":
 			return sam.Variants(bytes.NewReader(samData), bytes.NewReader(refFa), true, bytes.NewReader(pipeGb), "gb", w, -1, -1, false, 0.0, false, threads)
 		case "variants":
@@ -249,6 +268,9 @@ func pipeCall(cmd string, n, threads, badAt int, w *failWriter) (error, bool) {
 			return closest.Closest(bytes.NewReader(msa), bytes.NewReader(msa), "raw", w, threads)
 		case "closestn":
 			return closest.ClosestN(3, -1.0, bytes.NewReader(msa), bytes.NewReader(msa), "snp", w, false, threads)
+		case "closestd":
+			// -d 0 against a single target: every query but the first has nothing within the distance (a row "name,")
+			return closest.ClosestN(0, 0.0, bytes.NewReader(msa), bytes.NewReader(renderFasta(qs[:1], 0, false)), "snp", w, false, threads)
 		case "closestntable":
 			return closest.ClosestN(3, -1.0, bytes.NewReader(msa), bytes.NewReader(msa), "snp", w, true, threads)
 		case "toprank":
@@ -276,7 +298,7 @@ func splitRecords(cmd, out string, hdrLines int) (string, map[int]string, []int)
 	recs := map[int]string{}
 	order := []int{}
 	cur := -1
-	fasta := cmd == "toma" || cmd == "tomawrap" || cmd == "topa"
+	fasta := cmd == "toma" || cmd == "tomawrap" || cmd == "tomapad" || cmd == "topa"
 	for _, l := range ls {
 		if fasta {
 			if strings.HasPrefix(l, ">") {
